@@ -268,7 +268,6 @@ func (r *FeatureLocal) SetWriteApprovalTimeout(duration time.Duration) {
 
 func (r *FeatureLocal) CleanWriteApprovalCaches(ski string) {
 	r.muxResponseCB.Lock()
-	defer r.muxResponseCB.Unlock()
 
 	// stop the pending timeouts, otherwise they would still send
 	// an error result to the connection that is being removed
@@ -279,7 +278,13 @@ func (r *FeatureLocal) CleanWriteApprovalCaches(ski string) {
 	}
 
 	delete(r.pendingWriteApprovals, ski)
+
+	r.muxResponseCB.Unlock()
+
+	// the received approvals are guarded by muxWriteReceived, see ApproveOrDenyWrite
+	r.muxWriteReceived.Lock()
 	delete(r.writeApprovalReceived, ski)
+	r.muxWriteReceived.Unlock()
 }
 
 // Remove subscriptions and bindings from local cache for a remote device
